@@ -64,6 +64,11 @@ PAIRS = [
     ({"id": "http://base.example/root.json", "$id": "http://other.example/dir/root.json", "items": {"$ref": "doc.json"}}, [1, "s"]),
     ({"type": "integer", "maximum": 3, "exclusiveMaximum": True}, 3.0), ({"enum": [1]}, 1), ({"type": "string"}, "s"),
     (True, 1), (False, 1),
+    # local references below the schema's own id: the selected class decides which keyword is the id
+    ({"id": "http://base.example/root.json", "definitions": {"a": {"type": "integer"}}, "properties": {"p": {"$ref": "#/definitions/a"}}}, {"p": "x"}),
+    ({"$id": "http://base.example/root.json", "definitions": {"a": {"type": "integer"}}, "properties": {"p": {"$ref": "#/definitions/a"}}}, {"p": "x"}),
+    ({"id": "http://base.example/root.json", "$id": "http://base.example/root.json", "definitions": {"a": {"type": "integer"}},
+      "properties": {"p": {"$ref": "root.json#/definitions/a"}, "q": {"$ref": "http://base.example/root.json#/definitions/a"}}}, {"p": "x", "q": 1.5}),
 ]
 
 
@@ -208,7 +213,8 @@ def check_dispatch(rec, rng, registered, history, scratch, future=()):
                 if have != want:
                     rec.violation("explicit-class-does-not-win", case, "cls=%s: validate gives %r, that class gives %r" % (other.__name__, have, want))
             # --- the CLI without --validator
-            if scratch and rng.random() < 0.02 and "$ref" not in json.dumps(schema):
+            local_refs_only = "doc.json" not in json.dumps(schema)
+            if scratch and local_refs_only and rng.random() < (0.3 if "$ref" in json.dumps(schema) else 0.02):
                 rec.count("cli_checked")
                 sp = os.path.join(scratch, "s%d.json" % rng.randrange(10 ** 9))
                 ip = os.path.join(scratch, "i%d.json" % rng.randrange(10 ** 9))
@@ -231,7 +237,7 @@ def check_dispatch(rec, rng, registered, history, scratch, future=()):
                 except X.SchemaError as e:
                     msgs = [e.message]
                 except Exception:
-                    msgs = None
+                    msgs = None       # the selected class itself cannot validate this (e.g. unresolvable under its id rules)
                 if msgs is not None:
                     got_msgs = sorted(m.split("\x1f")[0] for m in err.getvalue().split("\x1e")[1:])
                     if got_msgs != msgs or (code == 0) != (not msgs):
